@@ -82,7 +82,8 @@ scool_sym, scool_real = both(scool_body)
 def _cases(tier):
     out = []
     specs = [((2,), "fixed", (1,)), ((2, 1), "variable", (1, 0)), ((2,), "fixed", (1, 1, 1))] if tier == "quick" else \
-            [((2,), "fixed", (1,)), ((2, 1), "variable", (2, 0)), ((2,), "fixed", (1, 1, 1)), ((3,), "even", (2, 2)), ((2, 2), "fixed", (0, 2, 1))]
+            [((2,), "fixed", (1,)), ((2, 1), "variable", (2, 0)), ((2,), "fixed", (1, 1, 1)), ((3,), "even", (2, 2)), ((2, 2), "fixed", (0, 2, 1)),
+             ((3,), "fixed", (3, 2)), ((2, 2), "variable", (2, 2, 2)), ((4,), "even", (3, 1, 0))]
     for layout, kind, Ks in specs:
         for per_cell in (False, True):
             out.append(dict(layout=list(layout), kind=kind, Ks=list(Ks), per_cell_bins=per_cell, names=["b2", "a3", "c1"]))
@@ -96,7 +97,7 @@ CHECKS = [
           doc="create_scool with 1-3 cells, symbolic per-cell pixel tables (empty allowed), one common bin table or per-cell bin tables with a symbolic "
               "extra column: each cell reads back its own table over the common bins, bins/{chrom,start,end} are the root's objects, per-cell columns kept, "
               "listing == names, recognised as scool",
-          bounds=dict(quick="<=3 cells, <=1 pixel each, n<=3 bins", thorough="<=3 cells, <=2 pixels each, n<=4"),
+          bounds=dict(quick="<=3 cells, <=1 pixel each, n<=3 bins", thorough="<=3 cells, <=3 pixels each, n<=4"),
           stubs=("E3 in-memory h5py model (hard links share the storage node)", "E4"), outside=("cell names containing '/'",), timeout=2400, split_depth=6),
 ]
 
